@@ -60,12 +60,71 @@ func (c *Ctx) freshBase(fn *ssa.Function, base ssa.Value) (bool, string) {
 				return false, "the result of " + c.calleeName(x)
 			}
 		case *ssa.Parameter:
+			if c.literalParamFresh(x) {
+				continue
+			}
 			return false, "the caller's object (parameter " + x.Name() + ")"
 		default:
 			return false, "a shared object"
 		}
 	}
 	return true, ""
+}
+
+// literalParamFresh: p is a parameter of a function literal that is only ever handed, where it is
+// made, to library functions which do nothing with it but call it, and each of these calls gives
+// it an object made in the calling function (q.with(func(copy *Query) { copy.skip = n })).
+func (c *Ctx) literalParamFresh(p *ssa.Parameter) bool {
+	lit := p.Parent()
+	parent := lit.Parent()
+	if parent == nil {
+		return false
+	}
+	pi := paramIndex(lit, p)
+	if pi < 0 {
+		return false
+	}
+	sites := 0
+	for _, b := range parent.Blocks {
+		for _, in := range b.Instrs {
+			mc, ok := in.(*ssa.MakeClosure)
+			if !ok || mc.Fn != ssa.Value(lit) {
+				continue
+			}
+			for _, r := range realReferrers(mc) {
+				call, ok := r.(*ssa.Call)
+				if !ok {
+					return false
+				}
+				h := staticCallee(call)
+				if h == nil || !c.IsLib(c.declared(h)) || call.Call.Value == ssa.Value(mc) {
+					return false
+				}
+				h = c.declared(h)
+				for j, a := range call.Call.Args {
+					if a != ssa.Value(mc) {
+						continue
+					}
+					if j >= len(h.Params) {
+						return false
+					}
+					hp := h.Params[j]
+					// every use of the parameter inside h is a call of it, with a fresh object
+					for _, hr := range realReferrers(hp) {
+						hc, ok := hr.(*ssa.Call)
+						if !ok || hc.Call.Value != ssa.Value(hp) || pi >= len(hc.Call.Args) {
+							return false
+						}
+						if ok, _ := c.freshBase(h, hc.Call.Args[pi]); !ok {
+							return false
+						}
+						sites++
+					}
+				}
+			}
+		}
+	}
+	return sites > 0
 }
 
 func ruleIMM1(c *Ctx) []Ob {
